@@ -32,7 +32,7 @@ Dirs     == {"base", "sub1", "sub2"}
 
 UnsetVar == [kind |-> "unset", ex |-> FALSE, val |-> "-"]
 InitState == [vars |-> [n \in VarNames |-> UnsetVar], funcs |-> [f \in {"f1"} |-> "0"], aliases |-> [a \in {"a1"} |-> "0"],
-              opts |-> {}, shopts |-> {}, cwd |-> "base", stack |-> <<>>]
+              opts |-> {}, shopts |-> {}, cwd |-> "base", stack |-> <<>>, optind |-> "1"]       \* optind: the shell-maintained OPTIND
 
 \* operations
 Op(name, a, b, c) == [op |-> name, a |-> a, b |-> b, c |-> c]
@@ -54,6 +54,7 @@ OpsOn(st) ==
  \cup {Op("setopt", o, on, "-") : o \in Opts, on \in {"on", "off"}}
  \cup {Op("shopt", o, on, "-") : o \in Shopts, on \in {"on", "off"}}
  \cup {Op("cd", d, "-", "-") : d \in Dirs}
+ \cup {Op("setoptind", v, "-", "-") : v \in {"1", "3"} \ {st.optind}}        \* what a getopts loop leaves behind
  \cup {Op("pushd", d, "-", "-") : d \in {x \in Dirs : Len(st.stack) < 2}}
  \cup {Op("popd", "-", "-", "-") : x \in {y \in {1} : st.stack # <<>>}}
 
@@ -78,6 +79,7 @@ Apply(st, o) ==
       [] o.op = "setopt"      -> [st EXCEPT !.opts = IF o.b = "on" THEN @ \cup {o.a} ELSE @ \ {o.a}]
       [] o.op = "shopt"       -> [st EXCEPT !.shopts = IF o.b = "on" THEN @ \cup {o.a} ELSE @ \ {o.a}]
       [] o.op = "cd"          -> [st EXCEPT !.cwd = o.a]
+      [] o.op = "setoptind"   -> [st EXCEPT !.optind = o.a]
       [] o.op = "pushd"       -> [st EXCEPT !.stack = <<st.cwd>> \o @, !.cwd = o.a]
       [] o.op = "popd"        -> [st EXCEPT !.cwd = Head(st.stack), !.stack = Tail(@)]
 
@@ -100,6 +102,7 @@ vars == <<hist, sess, file, proc, obs, ref, pc, cur>>
 Representative(o) == \/ o.op \in {"setvar", "setexported", "cfgenv"} /\ o.a \in {"v1", "TMPDIR_ORIG"} /\ o.b = "scalar" /\ o.c = "plain"
                      \/ o.op \in {"deffunc", "defalias"}          \* (body 2 of the function only parses while extglob is on)
                      \/ o.op \in {"cd", "pushd"} /\ o.a = "sub1"
+                     \/ o.op = "setoptind"
                      \/ o.op = "setopt" /\ (o.b = "off" \/ o.a = "pipefail")
                      \/ o.op = "shopt" /\ (o.b = "off" \/ o.a = "nullglob")
 \* family "script": the document is run by the single-script executor (Cram documents, --cram-compat): ONE process for all
